@@ -11,7 +11,18 @@ run under strace on a scratch cache directory.
      boundary-biased lengths of its complete content; then the same call — and calls for the other cached arguments — are
      made in FRESH processes and judged by the oracle "returns f(x) of the live source and does not raise" (no model);
  (c) crash states inside directory removals for kernel directory orders this file system does not produce are synthesised
-     by replaying the model's operation prefix (unlink/rmdir only differ) on a copy of the pre-state.
+     by replaying the model's operation prefix (unlink/rmdir only differ) on a copy of the pre-state;
+ (d) expiry: the workload function is NOT pure — its value is tagged with the epoch (generation) of the process, which the
+     harness controls through an epoch file; a process of epoch e also has its `time.time()` shifted by e * EPOCH_SHIFT (no
+     sleeps). Workloads `refresh` (an entry stored in epoch 0 is found expired by a call of epoch 1 under "valid iff stored
+     in epoch >= 1", removed, recomputed, stored — killed at every file-system call) and `coldexp` (a first call of epoch
+     0 killed at every call) are recovered by fresh processes of epoch 1 under that validity rule, given once as a callable
+     comparing metadata['time'] with the threshold instant the harness wrote (`since`) and once as the real
+     `expires_after(seconds=EXPIRY_DELTA)` (`expafter`). Oracle (no model): the value returned is of epoch >= 1; a stale
+     value is classified from the crash state the harness reads back (new time stamp next to the old value:
+     `stale-value-after-crash[expired-entry-refreshed]`; value without metadata: `expired-entry-served:metadata-missing`).
+     The model side: `gen=` of every process, `cb=since1` (theorems C05.stamp_not_newer_than_value_partial,
+     C05.expiry_recovery_partial, C05.entry_without_metadata_is_not_valid_under_a_callback).
 """
 
 from __future__ import annotations
@@ -35,6 +46,14 @@ REQUIRED_THEOREMS = [
     "C05.stale_after_crash_witness",
     "C05.old_code_F8_witness",
     "C05.old_code_F9_witness",
+    "C05.crash_mem_crashStates",
+    "C05.stamp_not_newer_than_value_partial",
+    "C05.expiry_recovery_partial",
+    "C05.entry_without_metadata_is_not_valid_under_a_callback",
+    "C05.accepted_under_since_has_recent_stamp",
+    "C05.accepted_under_since_has_recent_value",
+    "C05.metadata_first_counterexample",
+    "C05.skip_callback_without_metadata_counterexample",
 ]
 TRUSTED_EXTRA = [
     "modelled, not verified: the kernel at kill -9 (a completed rename/unlink/mkdir is durable, an interrupted write leaves a "
@@ -46,6 +65,11 @@ TRUSTED_EXTRA = [
     "tied to joblib.memory.extract_first_line on every prefix of real func_code.py texts (stream func_code-read)",
     "strace -f -y log parsing and canonicalisation (harness/fstrace.py); torn writes are produced by the harness from a "
     "kill at write(2) + extending the file to a prefix of its complete content",
+    "generations: the model's Val.gen / stamp are tied to the harness-controlled epoch of a workload process (value tag of "
+    "the impure workload function; time.time() shifted by epoch * EPOCH_SHIFT inside the process); `since g` stands for both "
+    "the harness callable metadata['time'] >= threshold and the real expires_after(seconds=EXPIRY_DELTA) under the shifted "
+    "clock; stamp_not_newer_than_value / expiry_recovery are proved for a finite family of workloads by evaluation of the "
+    "model (every k, every torn length), not for every initial directory",
 ]
 
 ARGS = [3, 4, 5]
@@ -55,8 +79,11 @@ X = 3  # the argument of "the same call"
 # a process = dict(kind=call|reduce|clear, a=…, ver=0|1, cb=none|long|now, shelve=0|1, compress=0|1)
 
 
-def _call(a, ver=0, cb="none", shelve=0, compress=0):
-    return dict(kind="call", a=a, ver=ver, cb=cb, shelve=shelve, compress=compress)
+def _call(a, ver=0, cb="none", shelve=0, compress=0, epoch=0):
+    """cb: none | long | now (real expires_after(days=1) / (seconds=-1)) | since1 (a callable: valid iff metadata['time']
+    is at or after the threshold instant = start of epoch 1) | exp1 (the real expires_after(seconds=EXPIRY_DELTA) in a
+    process whose clock is shifted by its epoch). epoch: the generation the process lives in (value of f, time.time())."""
+    return dict(kind="call", a=a, ver=ver, cb=cb, shelve=shelve, compress=compress, epoch=epoch)
 
 
 WORKLOADS = {
@@ -69,7 +96,19 @@ WORKLOADS = {
     "reduce": dict(setup=[_call(3), _call(4), _call(5)], action=dict(kind="reduce", items_limit=1, victims=[4, 5]), ver=0,
                    bystanders=[4, 5]),
     "clear": dict(setup=[_call(3), _call(4), _call(5)], action=dict(kind="clear"), ver=0, bystanders=[4, 5]),
+    # the function's value changes between epochs (generations). refresh: entries stored in epoch 0; in epoch 1 a call under
+    # "valid iff stored in epoch 1" finds the entry expired, removes it, recomputes and stores the epoch-1 value — killed at
+    # every point; the recovering calls (epoch 1, same validity rule, as a callable and as the real expires_after) must
+    # return a value of epoch >= 1
+    "refresh": dict(setup=[_call(3), _call(4)], action=_call(X, cb="since1", epoch=1), ver=0, bystanders=[4],
+                    rec_epoch=1, variants=["since", "expafter"]),
+    # coldexp: a first call in epoch 0, killed at every point; the recovering calls are made in epoch 1 under the validity
+    # rule (an output.pkl whose metadata.json was never written must not be served: its age is unknown)
+    "coldexp": dict(setup=[], action=_call(X), ver=0, bystanders=[], rec_epoch=1, variants=["since", "expafter"]),
 }
+VARIANT_CB = {"plain": "none", "expires": "long", "since": "since1", "expafter": "exp1"}
+REAL_CB = {"none": None, "long": "long", "now": "now", "since1": "since", "exp1": "expafter"}
+MODEL_CB = {"none": "none", "long": "long", "now": "now", "since1": "since1", "exp1": "since1"}
 QUICK_FULL = ("cold", "warm")  # every k in the quick tier
 
 SRC = {0: "v0", 1: "v1"}
@@ -101,17 +140,48 @@ def _act(a):
 def _real_spec(base, cache, p):
     repo = str(core.REPO)
     if p["kind"] == "call":
-        return dict(repo=repo, moddir=_moddir(base, p["ver"]), cache=cache, action="call", args=[_act(p["a"])],
-                    callback=None if p["cb"] == "none" else p["cb"], shelve=bool(p["shelve"]), compress=bool(p["compress"]))
+        spec = dict(repo=repo, moddir=_moddir(base, p["ver"]), cache=cache, action="call", args=[_act(p["a"])],
+                    callback=REAL_CB[p["cb"]], shelve=bool(p["shelve"]), compress=bool(p["compress"]))
+        if p.get("epoch", 0) or p["cb"] in ("since1", "exp1"):
+            spec.update(epoch_file=_epoch_file(base, p.get("epoch", 0)), threshold=_threshold(base))
+        return spec
     if p["kind"] == "reduce":
         return dict(repo=repo, moddir=_moddir(base, 0), cache=cache, action="reduce", items_limit=p["items_limit"])
     return dict(repo=repo, moddir=_moddir(base, 0), cache=cache, action="clear")
 
 
+def _epoch_file(base, epoch):
+    """The epoch file of processes living in `epoch` (written by the harness; the workload process reads it)."""
+    root = _root(base)
+    fn = os.path.join(root, f"epoch{epoch}")
+    if not os.path.exists(fn):
+        with open(fn + ".tmp%d" % os.getpid(), "w") as fh:
+            fh.write(str(epoch))
+        os.replace(fn + ".tmp%d" % os.getpid(), fn)
+    return fn
+
+
+def _root(base):
+    """The scratch root of the run (kill cases work in sub-directories of it)."""
+    d = base
+    while not os.path.exists(os.path.join(d, "threshold")):
+        nd = os.path.dirname(d)
+        if nd == d:
+            raise core.InfraError("no threshold file above " + base)
+        d = nd
+    return d
+
+
+def _threshold(base):
+    """The instant that separates epoch 0 from epoch 1 (written once by `_explore` before any process runs: clock of epoch
+    0 < threshold < clock of epoch 1, which is shifted by fstrace.EPOCH_SHIFT)."""
+    return float(open(os.path.join(_root(base), "threshold")).read())
+
+
 def _model_tok(p, me, kill=None, torn=None):
     if p["kind"] == "call":
-        s = (f"call:a={p['a']},ver={p['ver']},cb={p['cb']},shelve={p['shelve']},me={me},legacy=0,"
-             f"compress={p['compress']}")
+        s = (f"call:a={p['a']},ver={p['ver']},cb={MODEL_CB[p['cb']]},shelve={p['shelve']},me={me},legacy=0,"
+             f"compress={p['compress']},gen={p.get('epoch', 0)}")
     elif p["kind"] == "reduce":
         s = f"reduce:me={me},victims=" + (".".join(str(v) for v in p["victims"]) or "-")
     else:
@@ -272,7 +342,7 @@ def _crash_class(ops):
     return "func_code-untouched"
 
 
-def _judge(res, desc, rec, ver, variant, crash_class="?"):
+def _judge(res, desc, rec, ver, variant, crash_class="?", entry_states=None):
     """Oracle on one recovering process (no model): returns f(x) of the live source, does not raise."""
     r = rec["res"]
     a = rec["p"]["a"]
@@ -280,7 +350,7 @@ def _judge(res, desc, rec, ver, variant, crash_class="?"):
         res.fail("recover-process-died", desc, dict(rc=rec["rc"], err=rec["err"], arg=a, variant=variant))
         return
     oc = r["results"][0]["outcome"]
-    want = fstrace.expected(SRC[ver], _act(a))
+    want = fstrace.expected(SRC[ver], _act(a), rec["p"].get("epoch", 0) if rec["p"]["cb"] in ("since1", "exp1") else 0)
     if oc[0] == "raise":
         cls = oc[1]
         where = oc[3] if len(oc) > 3 else "call"
@@ -291,6 +361,25 @@ def _judge(res, desc, rec, ver, variant, crash_class="?"):
         else:
             sig = f"recover-raises:{cls}@{where}"
         res.fail(sig, desc, dict(arg=a, variant=variant, outcome=oc))
+    elif rec["p"]["cb"] in ("since1", "exp1"):
+        # expiry oracle (no model): under "valid iff stored in epoch >= E" the value returned must be of an epoch >= E
+        # (E = the epoch of the recovering process: a value cannot be newer than that, so it is exactly E)
+        need = rec["p"].get("epoch", 0)
+        got_epoch = fstrace.value_epoch(oc[1])
+        if oc[1] == want:
+            return
+        if got_epoch is not None and oc[1] == fstrace.expected(SRC[ver], _act(a), got_epoch) and got_epoch < need:
+            st = (entry_states or {}).get(str(a)) or {}
+            if st.get("meta") == "fresh" and st.get("out") is not None and st["out"] < need:
+                sig = "stale-value-after-crash[expired-entry-refreshed]"   # new time stamp next to the old value
+            elif st.get("meta") == "missing" and st.get("out") is not None:
+                sig = "expired-entry-served:metadata-missing"
+            else:
+                sig = "expired-entry-served:other"
+            res.fail(sig, dict(desc, entry_state=st), dict(arg=a, variant=variant, got=oc[1], value_epoch=got_epoch,
+                                                           required_epoch=need))
+        else:
+            res.fail("wrong-value", desc, dict(arg=a, variant=variant, got=oc[1], want=want))
     elif oc[1] != want:
         stale = oc[1] == fstrace.expected(SRC[1 - ver], _act(a))
         # a stale value is classified by the crash point class: F36 is exactly "killed after func_code.py was unlinked and
@@ -348,7 +437,7 @@ def _check_final_names(cache):
             if fn == "output.pkl":
                 try:
                     v = joblib.load(p)
-                    if not (isinstance(v, list) and len(v) == 3 and v[2] in SRC.values() and v[1] == 2 * v[0]):
+                    if not (fstrace.value_epoch(v) is not None and v[2] in SRC.values()):
                         bad.append(("output.pkl", "unexpected value %r" % (v,)))
                 except BaseException as e:  # noqa: BLE001
                     bad.append(("output.pkl", type(e).__name__))
@@ -359,6 +448,36 @@ def _check_final_names(cache):
                 except BaseException as e:  # noqa: BLE001
                     bad.append(("metadata.json", type(e).__name__))
     return bad
+
+
+def _entry_states(cache, ids, base):
+    """What the entry directory of each labelled argument holds (read by the harness, no model): the epoch of the value in
+    output.pkl and whether metadata.json carries a time stamp of epoch 0 ("old") or later ("fresh")."""
+    import joblib
+
+    thr = _threshold(base)
+    out = {}
+    fdir = os.path.join(cache, "joblib", ids["func_id"])
+    for lab, h in ids["ids"].items():
+        d = os.path.join(fdir, h)
+        st = dict(out=None, meta="missing")
+        try:
+            st["out"] = fstrace.value_epoch(joblib.load(os.path.join(d, "output.pkl")))
+        except BaseException:  # noqa: BLE001
+            pass
+        try:
+            t = json.loads(open(os.path.join(d, "metadata.json"), "rb").read().decode("utf-8")).get("time")
+            st["meta"] = "unreadable" if t is None else ("fresh" if t >= thr else "old")
+        except BaseException:  # noqa: BLE001
+            pass
+        out[lab] = st
+    return out
+
+
+def _rec_call(w, arg, variant, first):
+    """The recovering call for a variant: same source version; the workload's shelve flag only for its first variant."""
+    return _call(arg, ver=w["ver"], cb=VARIANT_CB[variant], shelve=w.get("shelve", 0) if first else 0,
+                 compress=w.get("compress", 0), epoch=w.get("rec_epoch", 0))
 
 
 def _kill_case(a):
@@ -403,12 +522,15 @@ def _kill_case(a):
                 torn_variants += [("torn", n) for n in lens]
                 # is the interrupted write the first write(2) of this open file (then the model's op is still to come)?
                 out["first_write"] = not (kp["ops"] and kp["ops"][-1] == f"write {cp}")
+    if w.get("rec_epoch") and not tier_thorough:
+        torn_variants = torn_variants[:2]  # torn func_code.py / temporaries are swept by `cold`; here one sample
     state = os.path.join(kdir, "state")
     _copy(cache, state)
     out["final_names"] = _check_final_names(cache)
+    out["entry_states"] = _entry_states(cache, ids, base)
     for tv in torn_variants:
         for variant in variants:
-            if tv is not None and variant != "plain" and not tier_thorough and not out["torn_file"].endswith("func_code.py"):
+            if tv is not None and variant != variants[0] and not tier_thorough and not out["torn_file"].endswith("func_code.py"):
                 continue
             vdir = os.path.join(kdir, "v")
             shutil.rmtree(vdir, ignore_errors=True)
@@ -428,13 +550,11 @@ def _kill_case(a):
             vc = _canon_for(vcache, ids)
             vc.participants = dict(canon.participants)
             recs = []
-            cbv = "long" if variant == "expires" else "none"
             seq = [X] + list(w["bystanders"]) + [X]
-            if variant != "plain" and not tier_thorough:
+            if variant != variants[0] and not tier_thorough:
                 seq = [X] + list(w["bystanders"])[:1]
             for ri, arg in enumerate(seq):
-                p = _call(arg, ver=w["ver"], cb=cbv, shelve=w.get("shelve", 0) if variant == "plain" else 0,
-                          compress=w.get("compress", 0))
+                p = _rec_call(w, arg, variant, variant == variants[0])
                 r = _proc_real(vdir, f"rec{ri}", vcache, vc, p, idx=60 + ri)
                 recs.append(dict(p=p, rc=r["rc"], res=r["res"], err=r["err"], ops=r["ops"], me=r["me"]))
             out["cases"].append(dict(torn=tv, variant=variant, kill_tok=kill_tok, killed_ops=kp["ops"], killed_me=kp["me"],
@@ -513,9 +633,10 @@ def _outcome_str(rec, ver):
     oc = r["results"][0]["outcome"]
     a = rec["p"]["a"]
     if oc[0] == "ok":
+        e = fstrace.value_epoch(oc[1])
         for v in (0, 1):
-            if oc[1] == fstrace.expected(SRC[v], _act(a)):
-                return f"ok v{v}.{a}"
+            if e is not None and oc[1] == fstrace.expected(SRC[v], _act(a), e):
+                return f"ok v{v}.{a}" + (f"@{e}" if e else "")
         return "ok ?"
     cls = oc[1]
     return "raise " + {"UnicodeDecodeError": "ValueError", "EOFError": "UnpicklingError"}.get(cls, cls)
@@ -618,6 +739,7 @@ def _synth_case(a):
             shutil.rmtree(kdir, ignore_errors=True)
             return dict(workload=wname, infra=f"replay of {o} failed: {e}")
     out = dict(workload=wname, order=order, kill=j, prefix=list(prefix), cases=[])
+    out["entry_states"] = _entry_states(cache, ids, base)
     state = os.path.join(kdir, "state")
     shutil.copytree(cache, state, symlinks=True)
     for variant in variants:
@@ -626,9 +748,8 @@ def _synth_case(a):
         vc = _canon_for(cache, ids)
         vc.participants = {f"setup{i}": i for i in range(len([m for m in setup_mes if m < 900]))}
         recs = []
-        cbv = "long" if variant == "expires" else "none"
         for ri, arg in enumerate([X] + list(w["bystanders"]) + [X]):
-            p = _call(arg, ver=w["ver"], cb=cbv)
+            p = _rec_call(w, arg, variant, False)
             r = _proc_real(kdir, f"rec{ri}", cache, vc, p, idx=60 + ri)
             recs.append(dict(p=p, rc=r["rc"], res=r["res"], err=r["err"], ops=r["ops"], me=r["me"]))
         out["cases"].append(dict(variant=variant, recs=recs))
@@ -639,11 +760,16 @@ def _synth_case(a):
 def _explore(ctx, budget_scale=1, only=None):
     res = Result()
     res.rule = ("one case = (workload, crash point k = number of completed file-system calls, torn length or none, recovery "
-                "variant plain|expires_after) judged on the same call + the other cached arguments in fresh processes; "
+                "variant plain|expires_after|since(epoch)|expires_after(shifted clock)) judged on the same call + the other cached arguments in fresh processes; "
                 "non-trivial = the crash point lies inside the workload's own calls under the cache directory; distinct by "
                 "(workload, k, torn length, variant, synthetic directory order)")
     core.use_repo()
     base = str(ctx.scratch)
+    import time
+
+    # the threshold instant between epoch 0 (the real clock) and epoch 1 (the clock shifted by EPOCH_SHIFT)
+    with open(os.path.join(base, "threshold"), "w") as fh:
+        fh.write(repr(time.time() + fstrace.EXPIRY_DELTA))
     ids = _ids(base)
     ACTUAL.update(ids["actual"])
     res.extra["arguments"] = ids["actual"]
@@ -681,16 +807,17 @@ def _explore(ctx, budget_scale=1, only=None):
             if len(prim) > cap:
                 prim = sorted(rng.sample(prim, cap))
             whens = prim + sec[:max(0, cap - len(prim))]
-        variants = ["plain", "expires"]
+        variants = WORKLOADS[wname].get("variants", ["plain", "expires"])
         for wh in whens:
             jobs.append((base, wname, wh, p["pre_dir"], ids, p["files"], p["setup_ops"], p["setup_mes"], thorough,
                          [rng.randint(0, 120) for _ in range(2 if not thorough else 5)], variants))
     synth_jobs = []
     for wname, p in preps.items():
-        if wname in ("srcchange", "clear", "reduce", "expire"):
+        if wname in ("srcchange", "clear", "reduce", "expire", "refresh"):
+            vs = WORKLOADS[wname].get("variants", ["plain", "expires"])
             for si, (order, j, prefix) in enumerate(_synth_cases(ctx, res, base, p, ids, 3 if thorough else 1)):
                 synth_jobs.append((base, wname, order, j, prefix, p["pre_dir"], ids, p["setup_mes"],
-                                   ["plain", "expires"] if thorough or j % 3 == 0 else ["plain"], f"{si}"))
+                                   vs if thorough or j % 3 == 0 else vs[:1], f"{si}"))
     if not thorough and len(synth_jobs) > 40:
         keep = [s for s in synth_jobs if s[1] == "srcchange"][:24]
         rest = [s for s in synth_jobs if s[1] != "srcchange"]
@@ -730,7 +857,7 @@ def _explore(ctx, budget_scale=1, only=None):
             if c["torn"] is not None and ko.get("torn_file") and kops[-1:] != [f"write {ko['torn_file']}"]:
                 kops.append(f"write {ko['torn_file']}")
             for rec in c["recs"]:
-                _judge(res, desc, rec, w["ver"], c["variant"], _crash_class(kops))
+                _judge(res, desc, rec, w["ver"], c["variant"], _crash_class(kops), ko.get("entry_states"))
             all_ops = p["setup_ops"] + [c["killed_ops"]] + [r["ops"] for r in c["recs"]]
             order = _order_from(_listings(all_ops + [p["clean_ops"]]))
             if order is None:
@@ -759,7 +886,7 @@ def _explore(ctx, budget_scale=1, only=None):
             res.nontrivial.add((wname, so["kill"], tuple(so["order"]), c["variant"]))
             res.count("synthetic-crash:" + wname)
             for rec in c["recs"]:
-                _judge(res, desc, rec, w["ver"], c["variant"], _crash_class(so.get("prefix", [])))
+                _judge(res, desc, rec, w["ver"], c["variant"], _crash_class(so.get("prefix", [])), so.get("entry_states"))
     if reqs:
         for (stream, desc, real), rep in zip(pend, ctx.driver().run(reqs)):
             _compare_logs(res, stream, desc, real, rep)
